@@ -404,6 +404,9 @@ theorem ecGlob_stable (S : Stable P Q) (f : Nat) (ed ed' : Ed) (loc cmd arg : By
     (hbody : LineKeeps P f (reRead arg).2) (hi : P ed)
     (h : ecGlob (f + 1) ed loc cmd arg = some (r, ed')) : P ed' := by
   rw [ecGlob_eq] at h
+  by_cases hdep : ed.xgdep ≥ 7
+  · rw [if_pos hdep] at h; cases h; exact S.to hi rfl rfl
+  rw [if_neg hdep] at h
   split at h
   · cases h
   · rename_i rc b e ed1 hr
